@@ -1,5 +1,6 @@
 package main
 import ("testing";"fmt";"os";"time";"sort";"strings";"golang.org/x/tools/go/ssa")
+func init(){ if r := os.Getenv("REPO"); r != "" { repoDir = r } }
 func TestGoFn(t *testing.T){
 	cfg := cfgAMD64
 	if os.Getenv("NOASM")!="" { cfg = cfgNoasm }
